@@ -163,7 +163,7 @@ def rDerefs (ds : List Name) : String :=
 def rInner : Inner → String
   | .fmtArgs a ds => s!"&derive_more::core::format_args!({a.emit},{rDerefs ds})"
   | .name s => s!"\"{s}\""
-  | .field tr f => s!"&derive_more::core::format_args!(\"{traitPlaceholder tr}\",{String.ofList f})"
+  | .field tr f => s!"&derive_more::core::format_args!(\"{traitPlaceholder tr}\",{if wrappedFieldDeref tr then "*" else ""}{String.ofList f})"
 
 def rBody : BodyD → String
   | .delegate tr e => s!"{P}{FmtCmd.showTrait tr}::fmt({e},__derive_more_f)"
